@@ -84,6 +84,8 @@ func TestVerif_C18(t *testing.T) {
 			vcliC18Session(r, c)
 		})
 	})
+	vcliC18ReservationCases(t, r, r.N(120, 1200))
+	r.Require("reserved_requests_served_elsewhere_after_goaway", 60)
 	r.Require("goaways_sent", int64(n*8/10))
 	r.Require("requests_on_stream_le_L_completed", 200)
 	r.Require("requests_on_stream_le_L_failed_with_conn_error", 50)
